@@ -63,7 +63,7 @@ def kernel_contract():
 def fract_contract(stub=False):
     n = 'self.n_frac_digits'
     return C(pre=['%s <= 38' % n],
-             post=[('C15.fract.value',
+             post=[('C10.fract.trunc_rem',
                     'r == (Decimal { coeff: trunc_rem(self.coeff as int, pow10(%s as nat)) as i128, n_frac_digits: %s })' % (n, n))],
              entry=('lemma_pow10_values(); lemma_pow10_pos(%s as nat); lemma_rust_div(self.coeff as int, pow10(%s as nat)); '
                     'lemma_trunc_div_rem(self.coeff as int, pow10(%s as nat)); '
